@@ -1,10 +1,12 @@
 package simharness
 
 import (
+	"bytes"
 	"context"
 	"errors"
 	"fmt"
 	"os"
+	"path"
 	"path/filepath"
 	"strings"
 	"syscall"
@@ -20,7 +22,7 @@ var branchSets = [][]string{
 	{"└", "·", "├", "│──"},
 }
 
-var extSets = [][]string{nil, {".go"}, {".txt", ".md"}, {"Makefile"}, {"go", ".go"}, {""}, {".tar.gz", ".gz"}, {"Makefile", "file"}, {".GO", ".go", ".txt"}, {".go", ".txt", ".go"}}
+var extSets = [][]string{nil, {".go"}, {".txt", ".md"}, {"Makefile"}, {"go", ".go"}, {""}, {".tar.gz", ".gz"}, {"Makefile", "file"}, {".GO", ".go", ".txt"}, {".go", ".txt", ".go"}, {"[1].txt", ".c?"}, {"*", ".cc"}}
 
 // genOp draws an operation. fsOK: allow operations with filesystem effects.
 func genOp(c *Ctx, massive bool) Op {
@@ -140,10 +142,36 @@ func (s *massiveScenario) classes() []string {
 	if len(s.preexist) > 0 {
 		cl = append(cl, "preexisting-root")
 	}
+	if s.op.Kind == "mkdir" && overlappingRoots(s.forest) {
+		// one root's directory lies inside (or is) another root's: massive mode checks each
+		// root's existence only when it gets to it (known finding)
+		cl = append(cl, "overlapping-roots")
+	}
 	if len(cl) == 0 {
 		return []string{"core"}
 	}
 	return cl
+}
+
+// overlappingRoots: a root named "." (the target directory itself), two roots with the same
+// path, or a root written as a path below another root.
+func overlappingRoots(forest []*MNode) bool {
+	var ps []string
+	for _, r := range forest {
+		p := path.Clean(r.Name)
+		if p == "." {
+			return len(forest) > 1
+		}
+		ps = append(ps, p)
+	}
+	for i, a := range ps {
+		for j, b := range ps {
+			if i != j && (a == b || strings.HasPrefix(b, a+"/")) {
+				return true
+			}
+		}
+	}
+	return false
 }
 
 func genMassiveScenario(c *Ctx, arm string, nMalformMax int) *massiveScenario {
@@ -322,6 +350,7 @@ func readerPlanFor(c *Ctx) ReaderPlan {
 		rp.ZeroReads = true
 	}
 	rp.ChunkSeed = uint64(c.Draw(1 << 16))
+	rp.WithLen = rp.ChunkSeed%4 == 0
 	return rp
 }
 
@@ -630,6 +659,10 @@ func caseC11(c *Ctx) {
 		c11StalledWriter(c, s, mk)
 		return
 	}
+	if arm == "core" && !s.op.FromRoot && !needsFS(s.op) && c.Chance(1, 12) {
+		c11StalledReader(c, s, mk)
+		return
+	}
 	d2 := s.prepareTarget(c, 2)
 	env := mk(d2)
 	plan.apply(env)
@@ -708,7 +741,7 @@ func judgeC11(c *Ctx, s *massiveScenario, arm, ctxMode string, ref *Outcome, ref
 			explained := ref.Err != nil || got.ReaderFired || got.WriterFired || got.CbFired || got.DiskFired > 0
 			// on the extended spellings massive mode may fail where simple mode does not
 			// (C10's known findings); that is not judged a second time here
-			if !explained && arm != "extended" && !strings.Contains(cls, "mixed-units") && !strings.Contains(cls, "sharp-roots") {
+			if !explained && arm != "extended" && !strings.Contains(cls, "mixed-units") && !strings.Contains(cls, "sharp-roots") && !strings.Contains(cls, "overlapping-roots") {
 				c.Failf("C11:cancelled-unexplained-error:"+s.op.Kind, "context cancelled at step %d; the call returned %q, which is neither the context's error nor an error of the input or an injected fault", got.CancelStep, got.Err)
 			}
 			c.st.Count("cancel:other-true-error")
@@ -1095,6 +1128,55 @@ func c11Endless(c *Ctx, s *massiveScenario, mk func(*DiskPlan) *Env) {
 
 // c11StalledWriter: one Write never returns (a stalled pipe). With a cancellation the call
 // must still return; the goroutines stuck behind the caller's writer are the caller's.
+// c11StalledReader: the caller's reader goes silent after some bytes (Read never returns);
+// the context is cancelled later. The call must return with the context's error: only the
+// goroutine that sits in Read may stay behind, and it must not be the caller's.
+func c11StalledReader(c *Ctx, s *massiveScenario, mk func(*DiskPlan) *Env) {
+	env := mk(nil)
+	env.Reader = readerPlanFor(c)
+	env.Reader.Stall = true
+	switch c.Draw(3) {
+	case 0:
+		env.Reader.StallAt = 0 // before the first byte
+	case 1:
+		env.Reader.StallAt = c.Draw(1 + len(firstLine(s.doc))) // inside the first line
+	default:
+		env.Reader.StallAt = c.Draw(len(s.doc) + 1)
+	}
+	mode := []string{"cancel", "deadline"}[c.Draw(2)]
+	env.Ctx = CtxPlan{Mode: mode, AtStep: 30 + c.Draw(500)}
+	env.MaxSteps = 40000 + 4*len(s.doc)
+	c.Scenario["faults"] = fmt.Sprintf("the reader goes silent after %d bytes, context %s at step %d", env.Reader.StallAt, mode, env.Ctx.AtStep)
+	c.st.Count("stalled-reader")
+	got := c.Sim("stalled-reader", s.op, env)
+	if !got.ReaderStalled {
+		return
+	}
+	c.st.Count("fault.fired:reader-stall")
+	if got.CancelFired {
+		c.st.Distinct("nontrivial", mix(hashStr(string(s.doc)+s.op.String()+"stalled-reader"), got.TraceHash))
+	}
+	if len(got.Panics) > 0 {
+		c.Failf("C11:panic-under-fault:"+got.Panics[0].Site, "stalled reader + cancellation: panic %s", got.Panics[0].Value)
+	}
+	if got.StepCap {
+		c.Failf("C11:livelock:"+s.op.Kind, "stalled reader: step cap exceeded")
+	}
+	if got.CancelFired && got.CancelBeforeReturn && !got.Returned {
+		c.Failf("C11:no-return-behind-stalled-reader:"+s.op.Kind, "the caller's reader went silent after %d bytes; the context was cancelled at step %d and the call still did not return:\n%s", env.Reader.StallAt, got.CancelStep, hangDetail(got))
+	}
+	if got.Returned && got.CancelFired && got.CancelBeforeReturn && got.Err == nil {
+		c.Failf("C11:nil-after-cancel-behind-stalled-reader:"+s.op.Kind, "the input was never read to its end, the context was cancelled before the call returned, and the call returned nil")
+	}
+}
+
+func firstLine(doc []byte) []byte {
+	if i := bytes.IndexByte(doc, '\n'); i >= 0 {
+		return doc[:i+1]
+	}
+	return doc
+}
+
 func c11StalledWriter(c *Ctx, s *massiveScenario, mk func(*DiskPlan) *Env) {
 	env := mk(nil)
 	env.Reader = readerPlanFor(c)
